@@ -117,10 +117,13 @@ def sparql_service_available(endpoint: str) -> bool:
 
 
 def _handle_part(part: str) -> tuple[str, float]:
-    if ";q=" not in part:
-        return part, 1.0
-    key, q = part.split(";q=", 1)
-    return key, float(q)
+    key, *parameters = (x.strip() for x in part.split(";"))
+    q = 1.0
+    for parameter in parameters:
+        name, _, value = parameter.partition("=")
+        if name.strip().lower() == "q":
+            q = float(value)
+    return key, q
 
 
 def parse_header(header: str) -> list[str]:
